@@ -167,6 +167,25 @@ def source_state(pid):
     pins_path = os.path.join(VERIF, "source_pins.json")
     pins = json.load(open(pins_path)) if os.path.exists(pins_path) else {}
     changed = sorted(f for f in cur if pins.get(f) != cur[f])
+    # function level (harness/astpins.py): of the files whose bytes changed, which functions' CODE changed (docstrings,
+    # comments and formatting do not count).  A file that changed in bytes only is reported but does not make the run
+    # look harder.
+    fpins_path = os.path.join(VERIF, "source_pins_functions.json")
+    funcs = []
+    if os.path.exists(fpins_path):
+        import astpins
+        fpins = json.load(open(fpins_path))
+        code_changed = []
+        for f in changed:
+            if not f.endswith(".py"):
+                continue
+            names = astpins.changed(astpins.fingerprints(os.path.join(REPO, f)), fpins.get(f))
+            funcs += [f"{f}:{n}" for n in names]
+            if names:
+                code_changed.append(f)
+        source_state.functions = funcs
+        return cur, (code_changed if all(f.endswith(".py") for f in changed) else changed)
+    source_state.functions = None
     return cur, changed
 
 
@@ -370,6 +389,8 @@ def main(argv=None):
     if src_changed and tier == "quick" and not os.environ.get("VERIF_NO_ESCALATE") and getattr(prop, "ESCALATE", True):
         gen_tier = "thorough"
         log(f"[{pid}] anchored source changed since it was pinned ({', '.join(src_changed)}): sampling at thorough size")
+        if getattr(source_state, "functions", None):
+            log(f"[{pid}] functions whose code differs from the pinned state: {', '.join(source_state.functions[:12])}" + (" …" if len(source_state.functions) > 12 else ""))
     # an escalated quick run stays a quick run: it stops drawing cases after a time budget (generators that build
     # histories run the implementation while generating) or at eight times the quick size of the slowest check
     t_gen, escalated = time.time(), gen_tier != tier
@@ -550,6 +571,7 @@ def main(argv=None):
             "leanchecker_modules": rechecked,
             "anchored_source_sha256": src_sha,
             "anchored_source_changed_since_pin": src_changed,
+            "anchored_functions_changed_since_pin": getattr(source_state, "functions", None),
             "anchored_source_reached": src_cov if src_cov is not None else "not measured in this run (thorough tier, or VERIF_COVERAGE=1)",
             "unproved": problems,
             "evaluations": len(cases),
